@@ -204,13 +204,25 @@ func Fill(dst reflect.Value, a any) error {
 	return nil
 }
 
+// clean returns an addressable view of v without the read-only flag reflect puts on values
+// reached through unexported fields (readonly structs, private definitions).
+func clean(v reflect.Value) reflect.Value {
+	if v.CanAddr() {
+		return reflect.NewAt(v.Type(), unsafe.Pointer(v.UnsafeAddr())).Elem()
+	}
+	if v.CanInterface() {
+		nv := reflect.New(v.Type()).Elem()
+		nv.Set(v)
+		return nv
+	}
+	return v
+}
+
 // Read converts a Go value into the abstract representation.
 func Read(v reflect.Value) any {
+	v = clean(v)
 	t := v.Type()
 	if t == timeType {
-		if !v.CanInterface() {
-			v = reflect.NewAt(t, unsafe.Pointer(v.UnsafeAddr())).Elem()
-		}
 		tm := v.Interface().(time.Time)
 		if tm.IsZero() {
 			return "zero"
